@@ -28,4 +28,24 @@ def fromMember (u : U V) (member : List (String × V)) : U V := { u with raw := 
 /-- a fresh union value: no member, every own field nil -/
 def fresh (fs : List Field) : U V := { raw := none, own := fs.map fun _ => none }
 
+/-! ### a union that also has additional properties (union-and-additional-properties.tmpl)
+
+`UnmarshalJSON` keeps the bytes as the stored member, reads the own properties and stores **every other member of the object**
+— the stored member's own properties included — as an additional property, decoded into the additional-properties type;
+`MarshalJSON` writes the stored member, the own properties over it and the additional properties over both. `re` stands for
+what decoding a member into the additional-properties type and encoding it again makes of its JSON text (the identity for
+the values that type represents exactly). -/
+
+structure UA (V : Type) where
+  raw : Option (List (String × V))
+  own : List (Option V)
+  addl : List (String × V)
+
+def unmarshalA (re : V → V) (fs : List Field) (o : List (String × V)) : UA V :=
+  { raw := some o, own := fs.map fun f => lookup o f.name,
+    addl := (o.filter fun kv => !declaredName fs kv.1).map fun kv => (kv.1, re kv.2) }
+
+def marshalA (zero : V) (fs : List Field) (u : UA V) : List (String × V) :=
+  u.addl.foldl (fun m kv => insert m kv.1 kv.2) (marshal zero fs ⟨u.raw, u.own⟩)
+
 end OapiVerif.UnionJson
